@@ -11,6 +11,7 @@ import datetime
 import typing as t
 
 from vlib.cond import Cond
+from vlib.fixtures import mod_a, mod_b
 from vlib.fixtures import models as M
 from vlib.prelude import SYMBOLIC, Chooser, NoTracing, reached
 
@@ -22,7 +23,7 @@ META = {
                   "codecs.codec / graph.static_order (routine and graph caches)", "typelib.py.inspection.* (per-predicate caches)",
                   "Delayed*._resolved", "typelib.ctx.TypeContext.__missing__ (alias memo)", "typelib.api.encode/decode/marshal/unmarshal"],
     "bounds": {
-        "quick": "all sequences of length <= 3 over an alphabet of 23 operation instances (19 fixed + 4 seed-rotated from 30): "
+        "quick": "all sequences of length <= 3 over an alphabet of 25 operation instances (21 fixed, among them the same reference text issued from two modules, + 4 seed-rotated from 30): "
                  "marshal / unmarshal / encode / decode / strload / isoformat on pools of equal-but-distinct operands (both member orders "
                  "of one union, equal instants with different offsets, 1 / 1.0 / True, the same text as str / bytes), build-routine ops, "
                  "deep-mutate the previous result, deep-mutate the previous input, clear caches",
@@ -104,6 +105,8 @@ def _ops():
         variant = None
         if klass == "union_order":
             variant = "str,int" if ("Union[str,int]" in name) else "int,str"
+        if klass == "string_ref":
+            variant = "mod_b" if "mod_b" in name else "mod_a"
         return Op(name, klass, mk, run, variant)
 
     core = [
@@ -129,6 +132,9 @@ def _ops():
         op("marshal(WithMeta)", "plain", lambda: M.WithMeta("n", {"k": 1}), lambda x: typelib.marshal(x)),
         op("marshal(dict,t=dict)", "plain", lambda: {"k": 1}, lambda x: typelib.marshal(x, t=dict)),
         op("unmarshal(OptRec,nested)", "plain", lambda: {"k": {"k": None}}, lambda x: typelib.unmarshal(M.OptRec, x)),
+        # the same reference text issued from two modules that each define a class of that name
+        op("unmarshal('Item' in mod_a)", "string_ref", lambda: {"id": "1", "tag": "2"}, lambda x: mod_a.unmarshal_here("Item", x)),
+        op("unmarshal('Item' in mod_b)", "string_ref", lambda: {"id": "1", "tag": "2"}, lambda x: mod_b.unmarshal_here("Item", x)),
     ]
     pool = [
         op("load(b'[1, 2]')", "text", lambda: b"[1, 2]", lambda x: serdes.load(x)),
@@ -213,7 +219,7 @@ def run_sequence(ops, cold, seq, _nested=False):
                 if last_input is not None:
                     deep_mutate(last_input)
             else:
-                caches.clear_all()
+                caches.clear_all(restore=False)  # what a user can do: the functools caches only
             continue
         op = ops[k]
         hist.append(op.name)
@@ -257,10 +263,10 @@ def _cause(ops, cold, seq, pos):
                         "<clear caches>": "cache_clear_after"}[sp]
                 return f"{what}:{victim}"
             culprit = ops[k]
-            if culprit.klass == target.klass and culprit.variant != target.variant and target.klass in ("equal_instant", "union_order", "numeric_alias"):
+            if culprit.klass == target.klass and culprit.variant != target.variant and target.klass in ("equal_instant", "union_order", "numeric_alias", "string_ref"):
                 return "after_equal_but_distinct:" + target.klass
             return "after:" + culprit.name
-    if target.klass in ("equal_instant", "union_order", "numeric_alias") and any(
+    if target.klass in ("equal_instant", "union_order", "numeric_alias", "string_ref") and any(
             q < nops and ops[q].klass == target.klass and ops[q].variant != target.variant for q in seq[:pos]):
         return "after_equal_but_distinct:" + target.klass  # several earlier calls each suffice
     return "unexplained"
